@@ -1,7 +1,7 @@
 //! C16 (also used by C18's process-level exploration).
 //!
 //! `trapsproc`: process-level runs of the real CLI (`vbrush`, built from /repo by this crate).
-//!   Case fields: <frontend c|f|s> <shell: v = vbrush | b = /usr/bin/bash> <script> (<file name> <file content>)*
+//!   Case fields: <frontend c|f|s[:flags]> <shell: v = vbrush | b = /usr/bin/bash> <script> (<file name> <file content>)*
 //!   Output: `<exit status> <hex stdout> <elapsed ms>` (status -1: killed by signal / timeout: `TIMEOUT`).
 //!   Every case runs in its own process group, killed when the case ends; the child is capped by
 //!   RLIMIT_CPU and RLIMIT_AS. Wall budget per case: env VERIF_CASE_TIMEOUT (seconds, default 20),
@@ -39,7 +39,12 @@ fn main_proc(cases: &[Vec<String>]) {
     let wall: u64 = std::env::var("VERIF_CASE_TIMEOUT").ok().and_then(|s| s.parse().ok()).unwrap_or(20);
     let cpu: u64 = std::env::var("VERIF_CASE_CPU").ok().and_then(|s| s.parse().ok()).unwrap_or(wall + 10);
     for (k, c) in cases.iter().enumerate() {
-        let fe = c.first().map(|s| unhex_str(s)).unwrap_or_default();
+        // front-end, optionally followed by ":" and blank-separated invocation flags (e.g. "s:-t", "f:-e")
+        let fe_full = c.first().map(|s| unhex_str(s)).unwrap_or_default();
+        let (fe, flags) = match fe_full.split_once(':') {
+            Some((a, b)) => (a.to_string(), b.to_string()),
+            None => (fe_full.clone(), String::new()),
+        };
         let which = c.get(1).map(|s| unhex_str(s)).unwrap_or_default();
         let script = c.get(2).map(|s| unhex_str(s)).unwrap_or_default();
         let cdir = format!("{dir}/{k}");
@@ -60,6 +65,9 @@ fn main_proc(cases: &[Vec<String>]) {
             c.arg("--norc").arg("--noprofile").arg("--no-config");
             c
         };
+        for f in flags.split(' ').filter(|f| !f.is_empty()) {
+            cmd.arg(f);
+        }
         cmd.env_clear()
             .env("PATH", "/usr/bin:/bin")
             .env("D", &cdir)
